@@ -352,8 +352,9 @@ def expected_faults(prop):
         base += ["private_init_while_public_pending", "fail_op_missing_prerequisite", "retry_after_failed_init",
                  "duplicate_table_name", "mutation"]
     if prop == "C08":
-        base = ["retry", "op_raised", "bad_key", "restart", "deliver_reordered", "deliver_duplicate",
-                "unpickle_without_table", "add_isotope_out_of_order"]
+        base = ["retry", "op_raised", "bad_key", "restart", "deliver_cross_node", "deliver_duplicate",
+                "unpickle_without_table", "unpickle_missing_isotope", "duplicate_table_name",
+                "add_isotope_out_of_order"]
     return base
 
 
@@ -384,6 +385,8 @@ def bias_for_index(i, bias):
 # ------------------------------------------------------------------ CLI
 def main(argv=None):
     faulthandler.enable()
+    import signal
+    faulthandler.register(signal.SIGUSR1, all_threads=True)
     ap = argparse.ArgumentParser(prog="check")
     ap.add_argument("what")
     ap.add_argument("arg", nargs="?")
